@@ -4,6 +4,15 @@ usage: seeded_meta.py <results dir> [<results dir> ...]   (later directories ove
 import json, os, re, sys
 
 WHAT = {
+ "r6-C01": "Beta gets a third algorithm (inverse CDF) for min(alpha, beta) == 1 exactly with the switched_params selection the wrong way round: Beta(1, b) is sampled as Beta(b, 1) (KS 1 - 2^(1-b)); Pert with the mode at an end inherits it",
+ "r6-C02": "Zipf uses the s == 1 logarithmic hat whenever |s - 1| < 2^-8 while the acceptance ratio still assumes the x^-s hat: the law becomes essentially Zipf(n, 1); TV 1.4e-3 (n = 10) .. 7e-3 (n = 1e6) for 0 < |s - 1| < 0.0039",
+ "r6-C03": "InverseGaussian root with a factored out of the radicand (a * sqrt(1 + 2/a)): 0 * inf = NaN when the normal draw is exactly 0 (f64: one word in 2^52; f32 with mean/shape << 1: a band)",
+ "r6-C05": "BTPE step 5.0 condition expanded with a wrong De Morgan: the recursive evaluation of f(y) from the mode is used for every proposal, 0.8 sqrt(npq) loop steps per sample (2.35 s per call at n = u64::MAX); words per sample and law unchanged",
+ "r6-C06": "ZIG_NORM_F[255] with two digits transposed (9.2e-5 relative): table equation violated, top-layer wedge accepts points above the density; Kolmogorov distance 3.0e-6",
+ "r6-C08": "WeightedAliasIndex::new sums float weights left to right in the validation loop instead of pairwise_sum: for long float vectors with a heavy first weight ([2^24, 1, 1, ...] f32, n >= 1e4) weight_sum is too small, probabilities and weights() off by n * eps",
+ "r6-C10": "try_sample 'leaf fast path' with first_leaf = (len - 1) / 2: in even-length trees the last inner node is treated as a leaf, the last index is never returned and its weight is credited to its parent",
+ "r6-C13": "Gumbel upper tail uses t = 1 - u for -ln(u) when t < cbrt(eps): relative error t/2 becomes an absolute shift; f32: top 0.49 % of the draws, Kolmogorov distance 1.2e-5 (55x the C13 bound)",
+ "r6-C14": "hand-written PartialEq for the Gamma helper structs: GammaSmallShape compares inv_shape only, so Gamma(shape < 1, s1) == Gamma(shape, s2) for any scales although they print and sample differently",
  "r5-C01": "StudentT clamps the chi-squared draw at F::epsilon() (EPSILON-vs-MIN mix-up): the power-law tail beyond sqrt(nu/eps) becomes Gaussian; KS 4.6e-3 (f32 nu = 0.5) .. 4.6e-2 (f32 nu = 0.25), f64 only for nu <= 0.26, far tail only for f32 nu ~ 1",
  "r5-C02": "Hypergeometric HIN loop rewritten as `for next in (x + 1)..x_max` (exclusive): the top value min(n1, k) of the internal variable can never be returned; TV = its probability (0.105 at (20,3,10), n/N for K = 1)",
  "r5-C04": "Pert::with_mode checks the mode before the range: a NaN min or max with a finite mode returns ModeRange (documented condition false) instead of RangeTooSmall",
